@@ -270,8 +270,19 @@ def rule_Q5(ctx, rid='Q5'):
                 if evl._is_r(tmp, env):
                     val = ('relw',)
             env[tgt] = val
+    def role(name):
+        """points / log_l / blobs: the stored array a view local was built from."""
+        firsts = sorted((st.lineno, st) for st in ast.walk(f.node) if isinstance(st, ast.Assign)
+                        and len(st.targets) == 1 and isinstance(st.targets[0], ast.Name) and
+                        st.targets[0].id == name)
+        for _, st in firsts:
+            for x in ast.walk(st.value):
+                if isinstance(x, ast.Attribute) and isinstance(x.value, ast.Name) and \
+                        x.value.id == f.self_name and x.attr in ('points', 'log_l', 'blobs'):
+                    return x.attr
+        return name
     for (nid, tgt), (ok, why, node) in sorted(seen.items()):
-        ctx.ob(rid, 'Sampler.posterior:multiplicity(%s)' % tgt, ok, f.where(node), why)
+        ctx.ob(rid, 'Sampler.posterior:multiplicity(%s)' % role(tgt), ok, f.where(node), why)
     for ln, txt in sorted(undecided):
         ctx.note('Q5 not decided for `%s` (line %d): form outside the rule\'s language' % (txt, ln))
     if not seen:
